@@ -251,5 +251,101 @@ def generate(text):
             body.append(f"def {ident} : NTDef := .alts [\n" + ",\n".join(rows) + "]")
         defs.append(f"({lean_str(name)}, {ident})")
     body.append("def grammar : List (String × NTDef) := [\n  " + ",\n  ".join(defs) + "]")
+    # ---- tables for the kernel-checked obligations (characters, not Strings: these reduce in the kernel)
+    def chars(x):
+        return "[" + ",".join("'" + ("\\'" if c == "'" else "\\\\" if c == "\\" else c) + "'" for c in x) + "]"
+    specials = []
+    ret_tables = []      # (nt, [(spelling, canonical)])
+    pure_tables = []     # (nt, [spelling])
+    byname = {nt.name: nt for nt in nts}
+    for nt in nts:
+        if nt.params:
+            continue
+        rows, pure, ok_ret, ok_pure = [], [], True, True
+        for idx, alt in enumerate(nt.alts):
+            single_lit = len(alt.symbols) == 1 and alt.symbols[0].kind == "lit" and not alt.symbols[0].suffix
+            m = RE_OWNED.match(alt.action.strip()) if alt.action else None
+            if single_lit and m:
+                rows.append((alt.symbols[0].value, unescape_rust(m.group(1))))
+            else:
+                ok_ret = False
+            if single_lit and alt.action is None:
+                pure.append(alt.symbols[0].value)
+            else:
+                ok_pure = False
+        # tables may also include other tables (gen_byte_reg includes reg_cl): only the literal rows are listed here
+        lit_rows = []
+        for alt in nt.alts:
+            if len(alt.symbols) == 1 and alt.symbols[0].kind == "lit" and alt.action and RE_OWNED.match(alt.action.strip()):
+                lit_rows.append((alt.symbols[0].value, unescape_rust(RE_OWNED.match(alt.action.strip()).group(1))))
+        if lit_rows:
+            ret_tables.append((nt.name, lit_rows))
+        if ok_pure and pure:
+            pure_tables.append((nt.name, pure))
+    for name, kind, payload in out_nts:
+        if kind == "alts":
+            for syms, act in payload:
+                m = re.match(r'\.special "([^"]+)" (\d+) (\d+)', act)
+                if m:
+                    specials.append((m.group(1), int(m.group(2)), int(m.group(3))))
+    # words that can reach an emitted CODE line
+    word_re = re.compile(r"[_a-zA-Z][_a-zA-Z0-9]*")
+    SPECIAL_WORDS = {"call": ["call"], "int": ["int"], "procedure": ["ret"], "print_stmt": ["print", "mem"], "jmps_loops": []}
+    SPECIAL_CHILDREN = {"memory_addr": None, "jmps_loops": ["quote_jmps_loops"], "call": [], "int": [], "procedure": [], "print_stmt": [],
+                        "byte_label": [], "word_label": [], "u_word_num": [], "u_byte_num": [], "s_word_num": [], "s_byte_num": [], "raw_addr": [],
+                        "offset": [], "label": [], "macro_use": [], "macro_def": [], "proc_def": []}
+    seen_w, words = set(), set()
+    def value_words(name):
+        """words that can occur in the VALUE (string) a non-terminal returns"""
+        if name in seen_w or name not in byname:
+            return
+        seen_w.add(name)
+        nt = byname[name]
+        for idx, alt in enumerate(nt.alts):
+            a = (alt.action or "").strip()
+            if nt.name in SPECIAL_NTS:
+                kids = SPECIAL_CHILDREN.get(nt.name)
+                for s_ in alt.symbols:
+                    walk_sym(s_, kids)
+                continue
+            for mm in re.finditer(STR, a):
+                if "error!" in a:
+                    continue
+                for w in word_re.findall(unescape_rust(mm.group(1))):
+                    words.add(w)
+            for s_ in alt.symbols:
+                if "error!" in a:
+                    continue
+                walk_sym(s_, None)
+    def walk_sym(s_, allowed):
+        if s_.kind == "nt" and not s_.args:
+            if allowed is None or s_.value in allowed:
+                value_words(s_.value)
+        for c in s_.children:
+            walk_sym(c, allowed)
+    for nt in nts:
+        if nt.params:
+            continue
+        for alt in nt.alts:
+            a = alt.action or ""
+            if "out.code.push" in a:
+                if nt.name in SPECIAL_WORDS:
+                    words.update(SPECIAL_WORDS[nt.name])
+                    for s_ in alt.symbols:
+                        walk_sym(s_, SPECIAL_CHILDREN.get(nt.name))
+                else:
+                    for mm in re.finditer(STR, a):
+                        for w in word_re.findall(unescape_rust(mm.group(1))):
+                            words.add(w)
+                    for s_ in alt.symbols:
+                        walk_sym(s_, None)
+    # names chosen by the user (labels, procedures) reach code lines too; they are covered by `keywordsC`
+    body.insert(len(body) - 1, "def specials : List (String × Nat × Nat) := [" + ", ".join(f"({lean_str(a)}, {b}, {c})" for a, b, c in specials) + "]")
+    body.insert(len(body) - 1, "def keywordsC : List (List Char) := [" + ", ".join(chars(k) for k in idlits) + "]")
+    body.insert(len(body) - 1, "def emittedWords : List (List Char) := [" + ", ".join(chars(k) for k in sorted(words)) + "]")
+    body.insert(len(body) - 1, "def retTables : List (List Char × List (List Char × List Char)) := [\n  " +
+                ",\n  ".join("(" + chars(n) + ", [" + ", ".join(f"({chars(a)}, {chars(b)})" for a, b in rows) + "])" for n, rows in ret_tables) + "]")
+    body.insert(len(body) - 1, "def pureTables : List (List Char × List (List Char)) := [\n  " +
+                ",\n  ".join("(" + chars(n) + ", [" + ", ".join(chars(a) for a in rows) + "])" for n, rows in pure_tables) + "]")
     body.append("end Emu8086.Gen.PP")
     return "\n".join(body) + "\n", {"nonterminals": len(out_nts), "alternatives": n_alts, "special": n_special, "keywords": len(idlits)}
